@@ -221,6 +221,14 @@ def generate(seed: int, tier: str) -> dict:
             src = pick(orr, ids)
             new = f"S{len(specs)}"
             ops.append({"actor": "D", "do": ["clone", new, src]})
+            if chance(orr, 0.3):
+                # the copy loads an extension (variables and a parameter of its own), and may
+                # amend that parameter at once - other systems that loaded the same extension
+                # keep theirs
+                ext = {"ext": "dsim.yaml_pkg.ext_a"}
+                if chance(orr, 0.6):
+                    ext["update"] = [gen_range(orr, ["2010-01-01", "2018-01-01"]), round(orr.uniform(0, 3), 2)]
+                ops[-1]["do"].append(ext)
             specs[new], parents[new], kinds[new] = copy.deepcopy(specs[src]), src, "clone"
             has_derivative.add(src)
         elif r < 0.5:
@@ -423,7 +431,7 @@ def fingerprint(system, world, scn):
         res[f"{ent.key}:bound"] = ent._tax_benefit_system is system
     fp["resolution"] = res
     ps = {}
-    for path in PARAM_PATHS:
+    for path in PARAM_PATHS + (["xa.bonus"] if "xa" in system.parameters.children else []):
         for d in PROBE_DATES:
             try:
                 a = _get_param(system.get_parameters_at_instant(d), path)
@@ -541,11 +549,21 @@ def _run(scn, world, res, H, scratch_worlds):
         kind = do[0]
         res.count("steps")
         if kind == "clone":
-            _, new, src = do
+            _, new, src = do[:3]
             if src not in systems or new in systems:
                 continue
             try:
                 systems[new] = systems[src].clone()
+                if len(do) > 3:
+                    from dsim.yaml_pkg import current
+
+                    current.ENT = world.ent
+                    if "xa" not in systems[new].parameters.children:
+                        systems[new].load_extension(do[3]["ext"])
+                        res.count("probe:copy_loads_an_extension")
+                    if do[3].get("update"):
+                        call_update(systems[new].parameters.xa.bonus, *do[3]["update"])
+                        res.count("probe:extension_parameter_amended_on_the_copy")
             except Exception as e:  # noqa: BLE001
                 res.violate("C14.derived", step, what="clone raised", error=type(e).__name__, detail=str(e)[:200])
                 break
